@@ -28,7 +28,7 @@ type Seg struct {
 }
 
 type Parts struct {
-	Scheme   string // "", "http://", "https://", "tg://", "ftp://"
+	Scheme   string // "", "//", "http://", "https://", "tg://", "ftp://"
 	Host     string
 	Port     string // "" or ":443"
 	Segs     []Seg
@@ -59,7 +59,8 @@ func isReserved(h string) bool {
 // Expect returns the demanded class and value.
 func Expect(p Parts) (Kind, string) {
 	switch p.Scheme {
-	case "", "http://", "https://":
+	case "", "http://", "https://", "//":
+		// "//host/path" is the scheme-relative spelling: no scheme at all, and unlike "host:port/path" unambiguous
 	default:
 		return Error, "" // another scheme
 	}
